@@ -201,6 +201,8 @@ Definition exp_linearPalette_ReadFrom : gfunc :=
           SReturn [] ] [];
         SIf [] (EBin "<" (EId "size") (EInt (0))) [
           SReturn [(EId "n"); (ECall (ESel (EId "errors") "New") [(EStr "level: negative palette length")])] ] [];
+        SIf [] (EBin ">" (ECall (EId "int") [(EId "size")]) (EBin "<<" (EInt (1)) (ESel (EId "l") "bits"))) [
+          SReturn [(EId "n"); (ECall (ESel (EId "errors") "New") [(EStr "level: palette length exceeds its width")])] ] [];
         SIf [] (EBin ">" (ECall (EId "int") [(EId "size")]) (ECall (EId "cap") [(ESel (EId "l") "values")])) [
           SAssign [(ESel (EId "l") "values")] "=" [(EMake "[]T" [(EId "size")])] ] [
           SAssign [(ESel (EId "l") "values")] "=" [(ESlice (ESel (EId "l") "values") [] [(EId "size")])] ];
@@ -260,6 +262,8 @@ Definition exp_hashPalette_ReadFrom : gfunc :=
           SReturn [] ] [];
         SIf [] (EBin "<" (EId "size") (EInt (0))) [
           SReturn [(EId "n"); (ECall (ESel (EId "errors") "New") [(EStr "level: negative palette length")])] ] [];
+        SIf [] (EBin ">" (ECall (EId "int") [(EId "size")]) (EBin "<<" (EInt (1)) (ESel (EId "h") "bits"))) [
+          SReturn [(EId "n"); (ECall (ESel (EId "errors") "New") [(EStr "level: palette length exceeds its width")])] ] [];
         SIf [] (EBin ">" (ECall (EId "int") [(EId "size")]) (ECall (EId "cap") [(ESel (EId "h") "values")])) [
           SAssign [(ESel (EId "h") "values")] "=" [(EMake "[]T" [(EId "size")])] ] [
           SAssign [(ESel (EId "h") "values")] "=" [(ESlice (ESel (EId "h") "values") [] [(EId "size")])] ];
